@@ -381,10 +381,17 @@ class IntegrityChecker(object):
                             level="violation",
                             category="feature size"))
             else:
-                if len(self.ds[feat]) != lends:
+                fdata = self.ds[feat]
+                if feat == "contour" and hasattr(fdata, "h5group"):
+                    # The length of HDF5-based contour data is taken from
+                    # the metadata, count the stored contours instead.
+                    lenfeat = len(fdata.h5group)
+                else:
+                    lenfeat = len(fdata)
+                if lenfeat != lends:
                     cues.append(ICue(
                         msg=f"Features: wrong event count: '{feat}' "
-                            + f"({len(self.ds[feat])} of {lends})",
+                            + f"({lenfeat} of {lends})",
                         level="violation",
                         category="feature size"))
         return cues
